@@ -44,6 +44,7 @@ class PrefLibInstance:
         self.num_alternatives = 0
         self.alternatives_name = {}
         self.num_voters = 0
+        self.reserved_names = set()
         self.alt_name_pattern = re.compile(r"# ALTERNATIVE NAME (\d+): ?(.*)")
 
     def type_validator(self, data_type):
@@ -73,6 +74,13 @@ class PrefLibInstance:
         """
 
         if self.type_validator(self.data_type):
+            if autocorrect:
+                # Names used by the file itself are never handed out as corrected names
+                self.reserved_names = set()
+                for line in lines:
+                    match = re.match(self.alt_name_pattern, line.strip())
+                    if match:
+                        self.reserved_names.add(match.group(2))
             self.parse(lines, autocorrect=autocorrect, header_only=header_only)
         else:
             raise TypeError(
@@ -194,7 +202,10 @@ class PrefLibInstance:
                 alt_name = match.group(2)
                 if autocorrect and alt_name in self.alternatives_name.values():
                     tmp = 1
-                    while alt_name + "__" + str(tmp) in self.alternatives_name.values():
+                    while (
+                        alt_name + "__" + str(tmp) in self.alternatives_name.values()
+                        or alt_name + "__" + str(tmp) in self.reserved_names
+                    ):
                         tmp += 1
                     self.alternatives_name[alt] = alt_name + "__" + str(tmp)
                 else:
